@@ -408,7 +408,7 @@ theorem C18_nearest (areas inf : IRaster) (N : Nat) (q : Quarantine) (hq : QFrom
     · rw [← hm1', ← hsplit]
     · rw [← hm1']; exact hpre
     · rw [← hm1']; exact hpost
-    · simp only [nearestOK, Bool.and_eq_true, List.any_eq_true, List.all_eq_true, presentCells,
+    · simp only [nearestOK, Bool.and_eq_true, List.any_eq_true, presentCells,
         List.mem_filter, decide_eq_true_eq]
       refine ⟨hdir, c, ⟨hc, hi⟩, ?_⟩
       rw [hsb]
